@@ -21,7 +21,17 @@ pub enum Case {
     /// The source changes while it is backed up: when the backup reports `when`-th file,
     /// a later file of the same directory is cut to a fraction of its length (or extended).
     /// Whatever gets recorded, the archive must still conform.
-    Changing { opts: Opts, tree: Tree, when: u16, victim: u16, keep: u16, grow: bool },
+    Changing {
+        opts: Opts,
+        tree: Tree,
+        when: u16,
+        victim: u16,
+        keep: u16,
+        grow: bool,
+        /// Instead of changing its length, replace the file by a directory (reading it fails).
+        #[serde(default)]
+        to_dir: bool,
+    },
 }
 
 fn strategy(tier: Tier) -> BoxedStrategy<Case> {
@@ -35,8 +45,9 @@ fn strategy(tier: Tier) -> BoxedStrategy<Case> {
             any::<u16>(),
             prop_oneof![1 => Just(0u16), 4 => any::<u16>()],
             prop::bool::weighted(0.2),
+            prop::bool::weighted(0.25),
         )
-            .prop_map(|((opts, tree), when, victim, keep, grow)| Case::Changing { opts, tree, when, victim, keep, grow }),
+            .prop_map(|((opts, tree), when, victim, keep, grow, to_dir)| Case::Changing { opts, tree, when, victim, keep, grow, to_dir }),
     ]
     .boxed()
 }
@@ -212,7 +223,8 @@ fn features(ra: &RawArchive) -> (bool, bool) {
     (multi_hunk, combined)
 }
 
-fn run_changing(opts: Opts, tree: &Tree, when: u16, victim: u16, keep: u16, grow: bool, cx: &mut Cx) -> CaseResult {
+#[allow(clippy::too_many_arguments)]
+fn run_changing(opts: Opts, tree: &Tree, when: u16, victim: u16, keep: u16, grow: bool, to_dir: bool, cx: &mut Cx) -> CaseResult {
     use crate::ops;
     let src = cx.dir("src");
     let arch = cx.dir("arch");
@@ -242,7 +254,12 @@ fn run_changing(opts: Opts, tree: &Tree, when: u16, victim: u16, keep: u16, grow
         let path = tree::fs_path(&src, vp);
         ops::set_on_change(Some(Box::new(move |apath: &str| {
             if apath == trigger {
-                let _ = std::fs::write(&path, &bytes);
+                if to_dir {
+                    let _ = std::fs::remove_file(&path);
+                    let _ = std::fs::create_dir(&path);
+                } else {
+                    let _ = std::fs::write(&path, &bytes);
+                }
             }
         })));
     }
@@ -254,15 +271,51 @@ fn run_changing(opts: Opts, tree: &Tree, when: u16, victim: u16, keep: u16, grow
         f.signature = format!("{}/source-changed-during-backup", f.signature);
         f
     })?;
+    // every file that was left alone is recorded with addresses that give its own bytes
+    let victim_path: Option<&String> = chosen.map(|c| c.0);
+    for band in ra.bands.values() {
+        for e in band.all_entries() {
+            if e.kind != "File" || Some(&e.apath) == victim_path {
+                continue;
+            }
+            if let Some(tree::Node { kind: Kind::File { pool, len }, .. }) = tree.0.get(&e.apath) {
+                let got = ra.file_bytes(e).map_err(|m| crate::engine::Failure::new("C13/address-block-missing/source-changed-during-backup", m))?;
+                ensure!(
+                    got == tree::content_bytes(*pool, *len),
+                    "C13/addresses-give-other-bytes/source-changed-during-backup",
+                    "{}: untouched during the backup, but its recorded addresses give {} bytes that are not its content ({} bytes); the file that changed was {:?}",
+                    e.apath,
+                    got.len(),
+                    len,
+                    victim_path
+                );
+            }
+        }
+    }
+    // ... and none of them is missing from the version
+    if let Some(band) = ra.bands.get(&0) {
+        let recorded: std::collections::BTreeSet<&str> = band.all_entries().iter().map(|e| e.apath.as_str()).collect();
+        for p in tree.0.keys() {
+            if Some(p) != victim_path {
+                ensure!(
+                    recorded.contains(p.as_str()),
+                    "C13/entry-missing/source-changed-during-backup",
+                    "{p} was not touched during the backup but the version has no entry for it (the file that changed was {victim_path:?}; backup: {})",
+                    b.describe()
+                );
+            }
+        }
+    }
     cx.add_evals(1);
     cx.label("tree-changing-during-backup");
+    cx.label_if(to_dir && chosen.is_some(), "file-became-directory-during-backup");
     cx.nontrivial = chosen.is_some();
     Ok(())
 }
 
 fn run(case: &Case, cx: &mut Cx) -> CaseResult {
-    if let Case::Changing { opts, tree, when, victim, keep, grow } = case {
-        return run_changing(*opts, tree, *when, *victim, *keep, *grow, cx);
+    if let Case::Changing { opts, tree, when, victim, keep, grow, to_dir } = case {
+        return run_changing(*opts, tree, *when, *victim, *keep, *grow, *to_dir, cx);
     }
     let (initial, ops): (&Tree, Vec<Op>) = match case {
         Case::Single { opts, tree } => (tree, vec![Op::Backup(*opts)]),
@@ -360,7 +413,7 @@ pub fn prop() -> Prop<Case> {
     Prop {
         id: "C13",
         level: "exploration",
-        rule: "case = (options, tree) single backup or a history as in C02; after every mutating archive operation (backup, interrupted backup, delete, gc) the archive directory is read by the harness's own decoder (serde_json + snap + blake2) and checked: header, hunk names i/%05d/%09d numbered consecutively from 0 and non-empty, valid apaths strictly increasing within and across hunks under the reference order, tail hunk count == number of hunk files, blocks at d/<3 hex>/<128 hex> named by BLAKE2b-512 of their decompressed content, addresses inside their block, addresses only on files with lengths summing to the model's file size, target iff symlink. Non-trivial = some band with >=2 hunks and some block shared by >=2 entries; distinct by case hash; evaluations = archive states checked; plus two fixed scale probes (10 012 one-entry hunks; multi-MiB blocks)",
+        rule: "case = (options, tree) single backup or a history as in C02; after every mutating archive operation (backup, interrupted backup, delete, gc) the archive directory is read by the harness's own decoder (serde_json + snap + blake2) and checked: header, hunk names i/%05d/%09d numbered consecutively from 0 and non-empty, valid apaths strictly increasing within and across hunks under the reference order, tail hunk count == number of hunk files, blocks at d/<3 hex>/<128 hex> named by BLAKE2b-512 of their decompressed content, addresses inside their block, addresses only on files with lengths summing to the model's file size, target iff symlink. Non-trivial = some band with >=2 hunks and some block shared by >=2 entries; distinct by case hash; evaluations = archive states checked; plus two fixed scale probes (10 012 one-entry hunks; multi-MiB blocks). A tenth of the cases are of a third kind: while the backup runs, a later file of the directory being read is cut to a generated fraction of its length, extended, or replaced by a directory (so that reading it fails); the archive must conform all the same, every other entry's addresses must give exactly that file's bytes, and no other path may be missing from the version",
         assumptions: &[
             "zero-length files left by the torn-write variant of an interruption are counted and skipped (documented exception)",
             "the decoder reads the key 'len' in addresses (what conserve writes; doc/format.md calls it 'length')",
